@@ -324,15 +324,19 @@ yep:
 }
 
 DEFUN size_t
-__ordtostr(char *buf, size_t bsz)
+__ordtostr(char *buf, size_t bsz, size_t ndig)
 {
 	char *p = buf;
 
-	if (UNLIKELY(bsz < 2)) {
+	if (UNLIKELY(bsz < 2 || ndig < 1)) {
 		return 0;
 	}
-	/* assumes the actual number is printed in BUF already, 2 digits long */
-	if (UNLIKELY(p[-2] == '1')) {
+	/* assumes the actual number is printed in front of BUF already,
+	 * NDIG digits long, don't look further back than that */
+	if (ndig < 2) {
+		/* no tens to look at */
+		;
+	} else if (UNLIKELY(p[-2] == '1')) {
 		/* must be 11, 12, or 13 then */
 		goto teens;
 	} else if (p[-2] == '0') {
